@@ -56,6 +56,7 @@ package uncompng
 //@   mode bv
 //@   requires w != nil && adlerOK(e) && startOf(e) <= ej && ej <= 0xFFF8
 //@   ensures implies(!final, adlerOK(e))
+//@   ensures[onlywriter] result == nil || writerErr(result)
 //@   ensures implies(result == nil && !final, !isFirst(e) && e.buf[4] == 'I' && e.buf[5] == 'D' && e.buf[6] == 'A' && e.buf[7] == 'T')
 //@   modifies mem(e.buf)
 //@   assert@call Write#1 [inbuf] len(arg_p) == old(ej) + 4 && base(arg_p) == base(e.buf[:]) && off(arg_p) == 0
@@ -75,7 +76,8 @@ package uncompng
 //@ func (*Encoder).Encode
 //@   prop C19
 //@   requires w != nil && 0 <= stride && stride <= 0x7FFFFFFF
-//@   requires implies(0 < height && height <= 0xFFFFFF && 0 <= width && width <= 0xFFFFFF, height*stride <= len(pix) && bpp(depth, colorType)*width <= stride)
+//@   requires implies(0 < height && height <= 0xFFFFFF && 0 <= width && width <= 0xFFFFFF, (height-1)*stride + bpp(depth, colorType)*width <= len(pix) && bpp(depth, colorType)*width <= stride)
+//@   ensures[succeeds] implies(0 <= width && width <= 0xFFFFFF && 0 <= height && height <= 0xFFFFFF && (depth == Depth8 || depth == Depth16) && (colorType == ColorTypeGray || colorType == ColorTypeRGBX || colorType == ColorTypeNRGBA), result == nil || writerErr(result))
 //@   modifies mem(e.buf)
 //@   loop 1 invariant 0 <= y && y <= height && 0x0D <= ej && ej <= 0xFFF8 && adlerOK(e) && implies(isFirst(e), 0x30 <= ej)
 //@   loop 1 decreases height - y
